@@ -88,7 +88,7 @@ def _df(case, R):
     except Exception as exc:  # noqa: BLE001
         R.violation(f"df-raises-{kind}", f"df raises {type(exc).__name__}: {exc}", wit)
         return
-    if abs(vals[0] - 1.0) > 1e-15:
+    if not (abs(vals[0] - 1.0) <= 1e-15):
         R.violation(f"df-at-0-{kind}", f"df(0) = {vals[0]!r}", wit)
     if np.any(vals <= 0) or np.any(~np.isfinite(vals)):
         R.violation(f"df-not-positive-{kind}", f"min df = {float(np.min(vals))!r}", wit)
@@ -214,7 +214,7 @@ def _sde(case, R):
         return
     bg = float(driver.blumenthal_getoor_index())
     R.hit("epsilon_checks")
-    if abs(proc.epsilon - grid.h**bg) > 1e-15:
+    if not (abs(proc.epsilon - grid.h**bg) <= 1e-15):
         R.violation("sde-epsilon", f"epsilon = {proc.epsilon!r}, h^BG = {grid.h ** bg!r}", wit)
     captured = []
     orig = proc.markov_chain.simulate_one_path
@@ -244,7 +244,7 @@ def _sde(case, R):
             R.violation(f"sde-path-misaligned-{tag}", f"solution {got.shape} on {np.asarray(path.jump_times).shape} times, driver has {times.shape}", wit)
             return
         scale = 1 + np.max(np.abs(want))
-        if np.max(np.abs(got - want)) > 1e-10 * scale:
+        if not (np.max(np.abs(got - want)) <= 1e-10 * scale):
             i = int(np.argmax(np.max(np.abs(got - want), axis=0)))
             R.violation(f"sde-not-euler-scheme-{tag}", f"{coef} coefficient: solution {got[:, i].tolist()} at step {i}, Euler recursion on the captured "
                         f"driver path {want[:, i].tolist()}", wit)
@@ -253,12 +253,12 @@ def _sde(case, R):
         if coef == "constant":
             R.hit("constant_closed_form")
             cf = x0v + (model.a.constant_matrix @ Y[:, -1:]).ravel()
-            if np.max(np.abs(got[:, -1] - cf)) > 1e-10 * scale:
+            if not (np.max(np.abs(got[:, -1] - cf)) <= 1e-10 * scale):
                 R.violation(f"sde-constant-closed-form-{tag}", f"terminal value {got[:, -1].tolist()} vs x0 + a Y_T = {cf.tolist()}", wit)
         if coef == "diagx":
             R.hit("diagonal_closed_form")
             cf = x0v * np.prod(1 + np.diff(Y, axis=1), axis=1)
-            if np.max(np.abs(got[:, -1] - cf)) > 1e-9 * (1 + np.max(np.abs(cf))):
+            if not (np.max(np.abs(got[:, -1] - cf)) <= 1e-9 * (1 + np.max(np.abs(cf)))):
                 R.violation(f"sde-diagonal-closed-form-{tag}", f"terminal value {got[:, -1].tolist()} vs x0 prod(1 + dY) = {cf.tolist()}", wit)
         if times.size >= 3:
             R.nontrivial_case("sde", case["seed"], coef, d)
@@ -276,12 +276,12 @@ def _sde(case, R):
         for level in range(1, case["levels"] + 1):
             drift_prev = np.asarray(cp.mc_drift_h, dtype=float).copy()
             cp.next_level(4, pms, product)
-            if np.max(np.abs(np.asarray(cp.mc_drift_2h, dtype=float) - drift_prev)) > 0:
+            if not (np.max(np.abs(np.asarray(cp.mc_drift_2h, dtype=float) - drift_prev)) <= 0):
                 R.violation("sde-coupling-coarse-drift-not-previous-level", f"level {level}: coarse driver drift {np.asarray(cp.mc_drift_2h).tolist()} "
                             f"vs level {level - 1} drift {drift_prev.tolist()}", wit)
             h_now = float(cp.driver_coupling_process.grid.h)
             R.hit("epsilon_checks")
-            if abs(cp.epsilon - h_now**bg) > 1e-15:
+            if not (abs(cp.epsilon - h_now**bg) <= 1e-15):
                 R.violation("sde-coupling-epsilon", f"level {level}: epsilon = {cp.epsilon!r}, (current h)^BG = {h_now ** bg!r}", wit)
             cap2 = []
             o2 = cp.driver_coupling_process.simulate_one_path_with_coupling
@@ -307,7 +307,7 @@ def _sde(case, R):
                     if got.shape != want.shape:
                         R.violation(f"sde-coupled-path-misaligned-{tag}", f"{got.shape} vs {want.shape}", wit)
                         return
-                    if np.max(np.abs(got - want)) > 1e-10 * (1 + np.max(np.abs(want))):
+                    if not (np.max(np.abs(got - want)) <= 1e-10 * (1 + np.max(np.abs(want)))):
                         R.violation(f"sde-coupled-not-euler-scheme-{tag}-{'fine' if comp == 0 else 'coarse'}", f"level {level}: coupled solution differs "
                                     "from the Euler recursion on the captured coupled driver path", wit)
                         return
